@@ -103,3 +103,15 @@ func init() {
 	wrapped.proxy = s.proxy
 	s.handle(ctx, wrapped, handler)`}}})
 }
+
+func init() {
+	addMutant(Mutant{Name: "benign-crypt-consumes-body-slice", Benign: true, Props: []string{"C06", "C09", "C15"},
+		Why: "the XOR loop walks a shrinking sub-slice of the body (same bytes written, same order)",
+		Edits: []Edit{{File: "crypt.go", Old: `	for i, b := range p.Body {
+		p.Body[i] = b ^ pad[i]
+	}`, New: `	rest := p.Body
+	for i := 0; len(rest) > 0; i++ {
+		rest[0] ^= pad[i]
+		rest = rest[1:]
+	}`}}})
+}
